@@ -7,8 +7,8 @@ WS tokens while _proc_macro is set (E1 postcondition), so a subprocess macro see
 token strings to macro_call / handle_with_macro_stmt unchanged (IR: the action's arguments are the item variables).
 Tokenizer.consume_macro_params is verified from its body (E1): returned text == concatenation of the raw tokens pulled before the
 delimiter, span, delimiter is a real `,` / `)` OP token, `)` pushed back and flag cleared (four ghost preconditions ASSUMED at its
-call site, listed in the evidence).  Tokenizer.consume_with_macro_params is verified from its body as to control flow, flags and span
-(the captured text itself is opaque there).  Parser.macro_call / handle_with_macro_stmt / proc_macro_arg (E1): one string Constant
+call site, listed in the evidence).  Tokenizer.consume_with_macro_params is verified from its body as to control flow, flags, span and
+what it captures per token (whole lines in the block form, from the token on in the one-line form); how the pieces are assembled is opaque.  Parser.macro_call / handle_with_macro_stmt / proc_macro_arg (E1): one string Constant
 per argument, in order, carrying that argument's text and position, plus globals() and locals(); the flag is lowered.
 NOT proved: bracket/string protection of commas (only the delimiter's token type is) and the text of a with-macro block -- bounded stand-in: argument texts from a pool x bracket nestings vs an
 independent bracket-aware splitter; block bodies (multi-line tokens, comments, blank lines); the statement after the macro.
@@ -193,7 +193,7 @@ def standin(rep: Report):
 
 def run(rep: Report):
     rep.trust("CPython ast", "engine/pegir", "engine/pyvc")
-    rep.assume("the TEXT captured by Tokenizer.consume_with_macro_params is opaque in its contract (control flow, flags and span are verified)",
+    rep.assume("how Tokenizer.consume_with_macro_params ASSEMBLES the captured pieces (per-line dict, re.findall, dedent) is not modelled; what is captured per token is an obligation",
                "tokens tile the source (C08): concatenating raw token strings, WS included, reproduces the source slice",
                "textwrap.dedent (external) removes the common leading whitespace")
     e1common.file_into(rep, "C07", rep.tier)
